@@ -206,6 +206,8 @@ def sh_state(ctx, out, name, allowed_names=("violations", "tasks"), rule="SH.sta
                     continue   # the diagnostics map and the task set are the validator's outputs
                 if re.search(r"::Iter<|::IterMut<|::IntoIter<|std::iter::|::Lines<|::Enumerate<", ty):
                     continue   # iterator state of the loop itself
+                if re.search(r"std::task::Context|future::ResumeTy", ty) or nm == "_task_context":
+                    continue   # the async runtime's resume argument
                 if not CONTAINERish.search(loc["ty"]) and not loc.get("mut"):
                     continue
                 if len(samples) < 3:
